@@ -9,7 +9,7 @@
     full clause about the current model and, as a regression witness, the
     refutation over the model of the code before the fix ([_unpatched_refuted]:
     the [_gen] functions with the flag [false]). *)
-From Gnmi Require Import Base.Prelude CTree.CTreeModel Path.PathModel
+From Gnmi Require Import Base.Prelude Base.Lts CTree.CTreeModel Path.PathModel
   Match.MatchModel Match.MatchCheck Match.MatchProofs.
 
 (** ** offered iff compatible *)
@@ -124,6 +124,64 @@ Theorem C06_no_leak :
   forall h : list hop, (forall q c, ~ In (q, c) (regs h)) -> run_hist h = empty_branch.
 Proof. exact no_leak. Qed.
 Print Assumptions C06_no_leak.
+
+(** ** the same under concurrency (lock discipline of Match.mu, MatchModel.cstep)
+
+    Any number of Update / UpdateOnce calls, removal closures and AddQuery
+    calls, every interleaving of their atomic steps (RLock, each client
+    callback, RUnlock; Lock + change, Unlock).  A schedule is a list of thread
+    numbers; [reachable_from (cstep true) (cinit t0 thr) s] ranges over all of
+    them. *)
+
+(** Every callback is made to a client that is registered, in the trie as it
+    is at that moment, on a path compatible with the update. *)
+Theorem C06_concurrent_delivery_current :
+  forall t0 thr s tid p upd c l,
+    wf t0 -> forallb thread_idle thr = true ->
+    reachable_from (cstep true) (cinit t0 thr) s ->
+    nth_error (cs_thr s) tid = Some (TUpd p upd (UHold (c :: l))) ->
+    exists q, In c (clients_at (cs_trie s) q) /\ compat q p = true.
+Proof. exact concurrent_delivery_current. Qed.
+Print Assumptions C06_concurrent_delivery_current.
+
+(** While a call is handing a notification out, no removal closure (and no
+    AddQuery) can enter its critical section, hence none can return. *)
+Theorem C06_concurrent_remove_blocked :
+  forall t0 thr s u p upd l tid,
+    wf t0 -> forallb thread_idle thr = true ->
+    reachable_from (cstep true) (cinit t0 thr) s ->
+    nth_error (cs_thr s) u = Some (TUpd p upd (UHold l)) ->
+    (forall q c, nth_error (cs_thr s) tid = Some (TRem q c WIdle) -> cstep true s tid = None) /\
+    (forall q c, nth_error (cs_thr s) tid = Some (TAdd q c WIdle) -> cstep true s tid = None).
+Proof. exact concurrent_remove_blocked. Qed.
+Print Assumptions C06_concurrent_remove_blocked.
+
+(** Once the removal closure of (q, c) has RETURNED (and no AddQuery for the
+    same pair is among the calls), every later callback to c -- the next step
+    of a call whose pending list starts with c -- is justified by another path
+    of c, registered at that moment and compatible with the update. *)
+Theorem C06_no_delivery_after_remove_concurrent :
+  forall t0 thr s r q c u p upd l,
+    wf t0 -> forallb thread_idle thr = true ->
+    (forall st, ~ In (TAdd q c st) thr) ->
+    reachable_from (cstep true) (cinit t0 thr) s ->
+    nth_error (cs_thr s) r = Some (TRem q c WDone) ->
+    nth_error (cs_thr s) u = Some (TUpd p upd (UHold (c :: l))) ->
+    exists q', q' <> q /\ In c (clients_at (cs_trie s) q') /\ compat q' p = true.
+Proof. exact no_delivery_after_remove_concurrent. Qed.
+Print Assumptions C06_no_delivery_after_remove_concurrent.
+
+(** The variant that collects the clients under the read lock and calls them
+    after RUnlock violates it: the removal closure returns and the client is
+    called afterwards although it is registered nowhere. *)
+Theorem C06_concurrent_unlocked_refuted :
+  exists t0 thr sch s,
+    wf t0 /\ forallb thread_idle thr = true /\
+    run (cstep false) (cinit t0 thr) sch = Some s /\
+    cs_trace s = [EReturned 1%nat; EDeliver 0%nat 2%nat] /\
+    (forall q, ~ In 2%nat (clients_at (cs_trie s) q)).
+Proof. exact concurrent_unlocked_refuted. Qed.
+Print Assumptions C06_concurrent_unlocked_refuted.
 
 (** Subscribe-level removal: after addSubscription followed by its removal
     closure the registrations are those from before, minus this client's own
